@@ -81,7 +81,12 @@ where
                                 let removed_leaf_index = remove_proposal.removed();
                                 let is_self_remove = *sender_leaf_index == removed_leaf_index;
 
-                                if is_self_remove && receiver_is_admin {
+                                // An admin that still holds a pending commit of its own cannot
+                                // create another commit: auto-committing would fail after the
+                                // proposal has already been queued. Queue it as pending instead.
+                                let can_commit_now = mls_group.pending_commit().is_none();
+
+                                if is_self_remove && receiver_is_admin && can_commit_now {
                                     // Self-remove proposal + admin receiver: auto-commit
                                     self.auto_commit_proposal(
                                         mls_group,
